@@ -158,7 +158,11 @@ func namesPure(c *Ctx, s string) {
 	cc, t1 := namesCall(c, "GoCamelCase", strs.GoCamelCase, s)
 	jc, t2 := namesCall(c, "JSONCamelCase", strs.JSONCamelCase, s)
 	js, t3 := namesCall(c, "JSONSnakeCase", strs.JSONSnakeCase, s)
-XX || t2 == "panic" || t3 == "panic" {
+	panicked := t1 == "panic" || t2 == "panic" || t3 == "panic"
+	if !namesSkipGo || panicked {
+		c.Case("names", "go_pure", []string{HexB([]byte(s))}, []string{t1, t2, t3})
+	}
+	if panicked {
 		return
 	}
 	cls, out := namesFieldMask(c, s)
